@@ -31,7 +31,7 @@ func c09(c *Ctx) (*report.Result, error) {
 		if f == nil {
 			continue
 		}
-		checkDeliver(c, res, f, spec.name, spec.getChan, spec.fwd)
+		checkDeliver(c, res, f, spec.name, spec.getChan, spec.fwd, "O9.1")
 	}
 	checkNotifyMsg(c, res)
 	checkLeave(c, res)
@@ -42,8 +42,7 @@ func c09(c *Ctx) (*report.Result, error) {
 	return res, nil
 }
 
-func checkDeliver(c *Ctx, res *report.Result, f *ssa.Function, name, getChan, fwd string) {
-	rule := "O9.1"
+func checkDeliver(c *Ctx, res *report.Result, f *ssa.Function, name, getChan, fwd, rule string) {
 	// the delivered flag: a bool cell of f captured by a closure that stores true into it
 	var delivered *ssa.Alloc
 	boundTo := func(fv *ssa.FreeVar) ssa.Value { return freeVarBinding(fv) }
@@ -63,6 +62,37 @@ func checkDeliver(c *Ctx, res *report.Result, f *ssa.Function, name, getChan, fw
 		}
 	}
 	if delivered == nil {
+		// without a flag that only the send arm sets, the code after the guarded-send closure cannot tell a completed
+		// hand-off from the closure's other outcomes (shutdown arm, recovered panic of a send on a closed channel)
+		for _, call := range flow.Calls(f) {
+			cal, _ := closureFn(call.Common().Value)
+			if cal == nil {
+				continue
+			}
+			hasSend := false
+			for _, sel := range selectsOf(cal) {
+				for _, state := range sel.States {
+					if state.Dir == types.SendOnly {
+						hasSend = true
+					}
+				}
+			}
+			if !hasSend {
+				continue
+			}
+			isTrueReturn := func(x ssa.Instruction) bool {
+				ret, ok := x.(*ssa.Return)
+				if !ok || len(ret.Results) != 1 {
+					return false
+				}
+				v, isC := flow.ConstBool(flow.Ret(ret)[0])
+				return !isC || v
+			}
+			if r := flow.FindPath(flow.After(call), isTrueReturn, func(ssa.Instruction) bool { return false }, nil); r.Found {
+				res.Viol(rule, name+": true only after a completed hand-off", instrPos(c.Prog, r.End), "after the guarded-send closure the function can report delivery without a flag that only the send arm sets: the closure also returns normally from its shutdown arm and after recovering the panic of a send on the closed channel of a dying stream - those outcomes are reported as delivered, the caller stops retrying and the task is dropped")
+				return
+			}
+		}
 		res.Undec(rule, name+": delivered flag", fnPos(c.Prog, f), "no captured bool flag set by the guarded-send closure found")
 		return
 	}
